@@ -252,6 +252,13 @@ func runC05(w *World, r *Report) {
 			}
 		})
 	}
+	{
+		// the built-in types the module registers are registered with everything they contain: a pending input, channel
+		// value or state that is a message with multi-modal parts / log-probs can be written (shared with C12.registered-closure)
+		_, leafOK := registeredLeafOK(w, "C05.channel-state")
+		persisted := append([]*types.Named{w.Named("compose", "checkpoint")}, channelImpls(w)...)
+		registeredSetClosed(w, r, "C05.channel-state", leafOK, persisted)
+	}
 	for _, must := range []string{"checkpoint", "channel", "dependencyState"} {
 		r.Check(registered[must], "C05.channel-state", "type "+must+" registered for serialisation", w.Named("compose", must).Obj().Pos(), "GenericRegister in init", "persisted type is not registered: checkpoints through a byte store fail or lose it")
 	}
